@@ -1551,6 +1551,9 @@ var _ rpc.Resources
 //@       callcount("ReleaseRPCResources") == old(callcount("ReleaseRPCResources")) + 1 && callcount("unqueueEvents") == old(callcount("unqueueEvents")) + 1
 //@   assert[C10] rpc.NewEvent#*: arg0 == s.rid && arg1 == event.Event
 //@   assert[C02] s.c.Send#2: predCovered(sub, r) && (forall x *Subscription :: x.c == s.c && x.state == stateToSend ==> predClosed(x, r))
+// (the deferred event is written only for a collection the client still holds: not after the
+// subscription was deleted, disposed, or reset to not-sent while the reference was loading)
+//@   assert[C02,C03] sub.GetRPCResources#1: s.state == stateSent
 //@   assert[C03] sub.ReleaseRPCResources#1: wsframes == old(wsframes) + ite(old(s.c.(*wsConn).ws) != nil, 1, 0)
 //@   assert[C03] s.unqueueEvents#1: arg0 == queueReasonLoading && callcount("ReleaseRPCResources") == old(callcount("ReleaseRPCResources")) + 1
 //@   safety[C15]
@@ -1614,6 +1617,8 @@ var _ rpc.Resources
 //@   assert[C10] rpc.NewEvent#*: arg0 == s.rid && arg1 == event.Event
 //@   assert[C01] rpc.NewEvent#3: s.c.(*wsConn).protocolVer < versionSoftResourceReferenceAndDataValue && typeis(arg2.(rpc.ChangeEvent).Values, rescache.Legacy120ValueMap)
 //@   assert[C01] rpc.NewEvent#4: s.c.(*wsConn).protocolVer >= versionSoftResourceReferenceAndDataValue && typeis(arg2.(rpc.ChangeEvent).Values, map[string]codec.Value)
+//@   assert[C02,C03] rpc.NewEvent#3: old(s.state) == stateSent
+//@   assert[C02,C03] rpc.NewEvent#4: old(s.state) == stateSent
 //@   assert[C02] s.c.Send#3: (forall j int :: 0 <= j && j < len(subs) ==> predCovered(subs[j], r)) && (forall x *Subscription :: x.c == s.c && x.state == stateToSend ==> predClosed(x, r))
 //@   assert[C02] s.c.Send#4: (forall j int :: 0 <= j && j < len(subs) ==> predCovered(subs[j], r)) && (forall x *Subscription :: x.c == s.c && x.state == stateToSend ==> predClosed(x, r))
 //@   assert[C03] sub.ReleaseRPCResources#1: rangeidx3 == 0 ==> wsframes == old(wsframes) + ite(old(s.c.(*wsConn).ws) != nil, 1, 0)
